@@ -67,7 +67,15 @@ DECL = re.compile(r'^(?P<type>(?:real|integer|character|logical|type|procedure)\
 
 def norm_type(t):
     t = re.sub(r'\s+', '', t.lower())
+    # real(kind=c_double) and real(c_double) are the same type-spec (the first positional of real/integer/logical is the kind);
+    # for CHARACTER the first positional is the length, so character(...) is left as written
+    m = re.match(r'^(real|integer|logical)\(kind=([^)]*)\)$', t)
+    if m:
+        t = '%s(%s)' % (m.group(1), m.group(2))
     return t
+
+
+ATTR_STMT = re.compile(r'^(?P<attr>value|optional|intent\s*\(\s*\w+\s*\)|dimension\s*\([^)]*\))\s*(?:::)?\s*(?P<names>.+)$', re.I)
 
 
 class Proc:
@@ -142,6 +150,18 @@ def parse(text):
         p = stack[-1]
         if low.startswith(('use ', 'use,', 'implicit', 'import', 'return', 'call ')) or low in ('import',):
             continue
+        am = ATTR_STMT.match(l.strip())
+        if am and not DECL.match(l.strip()):
+            # attribute specification statement: `value :: x, y`, `intent(in) :: a`, `dimension(*) :: v`
+            attr = re.sub(r'\s+', '', am.group('attr').lower())
+            for nm in re.split(r',(?![^()]*\))', am.group('names')):
+                nm = nm.strip()
+                arr_ = False
+                m2 = re.match(r'^(\w+)\s*\(([^)]*)\)$', nm)
+                if m2:
+                    nm, arr_ = m2.group(1), True
+                p.__dict__.setdefault('pending', {}).setdefault(nm.lower(), []).append((attr, arr_))
+            continue
         d = DECL.match(l.strip())
         if d:
             t = norm_type(d.group('type'))
@@ -164,4 +184,27 @@ def parse(text):
         p.unknown.append((ln, l))
     if stack or iface_stack:
         raise AnalysisBroken('masa.f90: unbalanced interface/procedure nesting at end of file')
+
+    def finish(p):
+        for nm, lst in getattr(p, 'pending', {}).items():
+            dcl = p.decls.get(nm)
+            if dcl is None:
+                p.unknown.append((p.line, 'attribute statement for undeclared name %s' % nm))
+                continue
+            for attr, arr_ in lst:
+                if attr == 'value':
+                    dcl['value'] = True
+                if attr.startswith('dimension(') or arr_:
+                    dcl['array'] = True
+                if attr not in dcl['attrs']:
+                    dcl['attrs'].append(attr)
+        if p.kind == 'function' and p.rtype is None:
+            # result typed in the body: `real(c_double) :: <function name or result variable>`
+            rd = p.decls.get((p.result or p.name).lower())
+            if rd is not None:
+                p.rtype = rd['type']
+        for q_ in p.nested.values():
+            finish(q_)
+    for p in top + module_procs:
+        finish(p)
     return top, module_procs
